@@ -178,6 +178,9 @@ def r4(ctx: Ctx) -> None:
         conds = [(strip_ver(c), pol) for c, pol, _ in p.conds]
         ok = len(conds) == 1 and not conds[0][1] and conds[0][0][0] == "call" and key(conds[0][0][1]) == "self.remain_executable_orders"
         muts = [e for e in p.events if e.kind in ("store", "del") or (e.kind == "call" and not e.pure and not e.noise)]
+        if any(e.kind == "call" and calls_target(e, "Market._execute_orders") for e in p.walk_events(True)):
+            ctx.unrec(f, f.node, "early return of a matching round", "this path completes a round (it fills a pair) without the walk: whether it leaves nothing executable behind is not decided", p.describe()[:160])
+            continue
         ctx.check(ok and not muts, f, f.node, "early return of a matching round", "only under `not remain_executable_orders()`, without effects",
                   p.describe()[:200])
     ctx.require(n >= 1, "no early-return path found in Market._execution")
